@@ -152,7 +152,12 @@ def analyse(body):
                             cap.add((bi, s))
         # `while v != 0` / `while v > 0`: the head tests a consumed unsigned value against zero and the zero outcome leaves the loop
         zero_exit = set()
-        t = body.blocks[head].term
+        zero_at_tail = False
+        sw_blocks = [b_ for b_ in blocks if body.blocks[b_].term and body.blocks[b_].term["k"] == "switch"]
+        # the one test of the loop: at the head (`while v != 0`), or further down (`loop { ..; v /= c; if v == 0 { break } }`)
+        test_block = head if (body.blocks[head].term and body.blocks[head].term["k"] == "switch") else (sw_blocks[0] if len(sw_blocks) == 1 else head)
+        zero_at_tail = test_block != head
+        t = body.blocks[test_block].term
         if t and t["k"] == "switch":
             dl = _place_local(t["discr"])
             dd = alld.get(dl, []) if dl is not None else []
@@ -176,6 +181,6 @@ def analyse(body):
                                 zero_exit.add(xl)
         res[head] = {"blocks": set(blocks), "counters": bounded, "consumed": consumed, "capacity_exits": cap,
                      "steps": {l: v for l, v in steps.items() if l in ind and l not in consumed},
-                     "amounts": amounts, "zero_exit": zero_exit,
+                     "amounts": amounts, "zero_exit": zero_exit, "zero_at_tail": zero_at_tail and bool(zero_exit),
                      "step_counters": {l for l in steps if set(_kinds_of(ind, alld, l)) == {"step"}}}
     return res
